@@ -211,3 +211,26 @@ pub fn args_from_replay(mut args: kvcore::Args) -> kvcore::Args {
     }
     args
 }
+
+/// Wall-clock watchdog: a check that does not finish (kanidm code that never returns, an
+/// overloaded machine) ends *inconclusive*, never held or violated.
+pub fn watchdog(args: &kvcore::Args, secs: u64) {
+    let prop = args.prop.clone();
+    let tier = args.tier.name();
+    let seed = args.seed;
+    std::thread::spawn(move || {
+        std::thread::sleep(std::time::Duration::from_secs(secs));
+        let reason = format!("watchdog: check did not finish within {secs} s wall clock");
+        let ev = serde_json::json!({
+            "property_id": prop, "tier": tier, "seed": seed, "level": "exploration",
+            "coverage": {"evaluations": 0, "distinct_nontrivial": 0, "rule": "watchdog fired before the run completed",
+                         "samples": [], "verdict": "inconclusive", "inconclusive_reasons": [reason]},
+            "assumptions": [], "wall_s": secs, "violations": 0,
+        });
+        let dir = kvcore::run::verif_root().join("evidence");
+        let _ = std::fs::create_dir_all(&dir);
+        let _ = std::fs::write(dir.join(format!("{prop}.json")), serde_json::to_string_pretty(&ev).unwrap_or_default());
+        println!("INCONCLUSIVE property={prop} reason={reason}");
+        std::process::exit(2);
+    });
+}
